@@ -139,6 +139,19 @@ static std::string run_red(const MCase& c) {
     for (long i = 0; i < c.n; i++) if (res[(size_t)i] != c.b + i) return fmt("parallel_reduce result differs from the left-to-right fold at position %ld: %ld", i, res[(size_t)i]);
     return "";
 }
+// interval monoid: (first, last) of a contiguous run, empty = identity; a join of two runs that do not touch, or in the wrong order, is an error.
+// Same law as the free monoid above (associative, not commutative) but O(1) per value, so ranges of millions of elements are affordable.
+struct Iv { long f = 0, l = 0; bool bad = false; };
+static std::string run_redi(const MCase& c) {
+    tbb::affinity_partitioner ap; mock::reset(c.P, c.seed, c.y); Iv res; BR range(c.b, c.b + c.n, (size_t)c.g);
+    auto join = [](Iv a, const Iv& b) { if (a.f == a.l) return b; if (b.f == b.l) return a; if (a.l != b.f) a.bad = true; a.l = b.l; a.bad |= b.bad; return a; };
+    auto body = [&](const BR& r, Iv acc) { if (r.empty()) mock::fail("parallel_reduce body got an empty range"); Iv me; me.f = r.begin(); me.l = r.end(); mock::yield_point(); return join(acc, me); };
+    with_part(c.part, ap, [&](auto&& p) { res = tbb::parallel_reduce(range, Iv(), body, join, p); });
+    std::string e = finish("parallel_reduce"); if (!e.empty()) return e;
+    if (res.bad) return "parallel_reduce joined two partial results that are not adjacent in left-to-right order";
+    if (res.f != c.b || res.l != c.b + c.n) return fmt("parallel_reduce folded [%ld,%ld), the range is [%ld,%ld)", res.f, res.l, c.b, c.b + c.n);
+    return "";
+}
 static std::string dred_once(const MCase& c, int P, uint64_t seed, std::string& out) {
     mock::reset(P, seed, c.y); BR range(c.b, c.b + c.n, (size_t)c.g);
     auto body = [&](const BR& r, std::string acc) { std::string lf = std::to_string(r.begin()) + ":" + std::to_string(r.end()); mock::yield_point(); return acc.empty() ? lf : "(" + acc + " " + lf + ")"; };
@@ -186,7 +199,7 @@ static std::string judge(const MCase& c) {
 }
 static std::string judge2(const MCase& c) {
     g_nontrivial = false; g_bad_splits = 0; mock::live_allocs = 0; mock::n_steals = mock::n_nested = mock::n_mailed = 0;
-    if (c.alg == "for") return run_for(c); if (c.alg == "for2d") return run_for2d(c); if (c.alg == "red") return run_red(c); if (c.alg == "dred") return run_dred(c); if (c.alg == "scan") return run_scan(c);
+    if (c.alg == "for") return run_for(c); if (c.alg == "for2d") return run_for2d(c); if (c.alg == "red") return run_red(c); if (c.alg == "redi") return run_redi(c); if (c.alg == "dred") return run_dred(c); if (c.alg == "scan") return run_scan(c);
     return "";
 }
 static long pick(long lo, long hi) { return *rc::gen::resize(100, rc::gen::inRange<long>(lo, hi + 1)); }
@@ -202,7 +215,7 @@ static MCase gen_case(const std::string& prop) {
     if (c.alg == "for2d") { c.n = std::min<long>(c.n, 40); c.n2 = pick(1, 40); c.g2 = pick(1, 6); }
     c.b = pick(0, 2) ? 0 : pick(-100, 100);
     c.P = (int)pick(1, 8); c.P2 = (int)pick(1, 8); c.seed = (uint64_t)pick(1, 1000000); c.seed2 = (uint64_t)pick(1, 1000000); static const long YK[] = { 0, 1, 2, 4, 8 }; c.y = YK[pick(0, 4)];
-    if (c.alg == "for" && pick(0, 39) == 0) { c.part = pick(0, 1) ? "auto" : "affinity"; c.n = pick(1L << 16, 1L << 22); c.g = 1; c.P = (int)pick(2, 8); c.y = pick(1, 3); }
+    if ((c.alg == "for" || c.alg == "red") && pick(0, 39) == 0) { if (c.alg == "red") c.alg = "redi"; c.part = pick(0, 1) ? "auto" : "affinity"; c.n = pick(1L << 16, 1L << 22); c.g = 1; c.P = (int)pick(2, 8); c.y = pick(1, 3); }
     return c;
 }
 static uint64_t fnv(const std::string& s) { uint64_t h = 1469598103934665603ull; for (unsigned char ch : s) { h ^= ch; h *= 1099511628211ull; } return h; }
